@@ -716,8 +716,14 @@ def vc_glb(ctx):
             sites = [k_[0] for k_, w in it.writes.items() if loc_target(it, w.loc) and loc_target(it, w.loc)[:2] == (1, ('dots',)) and w.kind == 'assign'] \
                 + [k_[0] for k_, w in it.muts.items() if loc_target(it, w.loc) and loc_target(it, w.loc)[:2] == (1, ('dots',)) and w.kind == 'call'
                    and w.val[0] == 'post' and call_name(w.val[1]) == 'retain']
-            # (an empty `other` is no excuse: the minimum with nothing is nothing)
-            if not must_pass_unless_noop(facts, body, it, sorted(set(sites)), {'self': (1, ())}):
+            # (an empty `other` is no excuse: the minimum with nothing is nothing - `self.dots.clear()` is that store, but only there)
+            clears = [b_ for b_, c_ in _dots_writes(it, ('clear',))]
+            if clears:
+                rc_ne = Reach(facts, body, Evaluator(facts, bool_atom=emptiness_atom({'other': (2, ())}), assumption={'other': False}))
+                if any(b_ in rc_ne.reachable for b_ in clears):
+                    ctx.fail('glb/store', body, 'self.dots is cleared although the other clock is not empty')
+                    clears = []
+            if not must_pass_unless_noop(facts, body, it, sorted(set(sites + clears)), {'self': (1, ())}):
                 ctx.fail('glb/store', body, 'a path through glb avoids storing the pointwise minimum back into self.dots')
 
 
